@@ -333,7 +333,7 @@ def r4_8(cx):
     """what the pending set stands on: the sliding deque under both deques (R15.1-R15.6), the tombstoned ordered map of placeholders (R16.1-R16.4), memberwise clones (R20.3), offsets never truncated (R3.5)"""
     from . import c16, c20, c03
     from . import c15
-    compose(cx, [('R15.1', c15.r15_1), ('R15.2', c15.r15_2), ('R15.3', c15.r15_3), ('R15.4', c15.r15_4), ('R15.5', c15.r15_5), ('R15.6', c15.r15_6), ('R15.7', c15.r15_7),
+    compose(cx, [('R15.1', c15.r15_1), ('R15.2', c15.r15_2), ('R15.3', c15.r15_3), ('R15.4', c15.r15_4), ('R15.5', c15.r15_5), ('R15.6', c15.r15_6), ('R15.7', c15.r15_7), ('R15.8', c15.r15_8),
                  ('R16.1', c16.r16_1), ('R16.2', c16.r16_2), ('R16.3', c16.r16_3), ('R16.4', c16.r16_4), ('R20.3', c20.r20_3), ('R3.5', c03.r3_5)])
 
 
